@@ -735,7 +735,8 @@ pub fn build_font_with(vf: &VFont, rng: &mut Rng, cff2: Option<Vec<u8>>) -> Buil
 const AXIS_TAGS: &[&[u8; 4]] = &[b"wght", b"wdth", b"opsz", b"slnt", b"ital", b"AXAA", b"AXBB", b"GRAD"];
 
 pub fn gen_axes(rng: &mut Rng) -> Vec<Axis> {
-    let n = 1 + rng.below(3);
+    // mostly 1-3 axes; sometimes more than the four an inline tuple holds
+    let n = if rng.chance(1, 12) { 4 + rng.below(4) } else { 1 + rng.below(3) };
     let mut tags: Vec<&[u8; 4]> = AXIS_TAGS.to_vec();
     rng.shuffle(&mut tags);
     (0..n)
